@@ -32,8 +32,19 @@ def run : Runner
     | "scantime" =>
       some { model := "ok", prop := if impl == "ok" then "ok" else "violated:block scan cost grows super-polynomially " ++ impl }
     | "json" | "blkbytes" | "txbytes" =>
-      -- external decoders (encoding/json, jsonpb, wire) are not modelled: only the guard is decided here
-      some { model := if g == "ok" then impl else "no-fault", prop := g }
+      -- external decoders (encoding/json, jsonpb, wire) are not modelled: the guard is decided here, and the SHAPE of the
+      -- observation: anything but a well-formed `ok…` / `err` (e.g. the harness's own "unmarshal/unmarshalnext disagree",
+      -- a block whose TxLoc fails although it parsed, a byte length beyond the input) is a violation
+      let inLen := ((args.getD 1 "").length) / 2
+      let shapeOk : Bool :=
+        match op, impl.splitOn ":" with
+        | _, ["err"] => true
+        | "json", ["ok"] => true
+        | "blkbytes", ["ok", n, l, t] => n.toNat?.isSome && (match l.toNat? with | some v => decide (v ≤ inLen) | none => false) && t == "1"
+        | "txbytes", ["ok", h] => h.length == 8
+        | _, _ => false
+      some { model := if g == "ok" then impl else "no-fault",
+             prop := if g != "ok" then g else if shapeOk then "ok" else "violated:malformed or inconsistent result " ++ impl }
     | "bcb" => (C07.run "cb" args impl).map fun o => { o with prop := g }
     | _ =>
       match owner op with
